@@ -49,7 +49,7 @@ func NewSem(p *core.Prog) *Sem {
 
 // FieldOf returns the field object Type.Field of package pk.
 func FieldOf(pk *packages.Package, typ, field string) *types.Var {
-	obj := pk.Types.Scope().Lookup(typ)
+	obj := core.LookupType(pk.Types.Scope(), typ)
 	if obj == nil {
 		return nil
 	}
@@ -58,7 +58,7 @@ func FieldOf(pk *packages.Package, typ, field string) *types.Var {
 		return nil
 	}
 	for i := 0; i < st.NumFields(); i++ {
-		if st.Field(i).Name() == field {
+		if core.FieldName(st.Field(i)) == field {
 			return st.Field(i)
 		}
 	}
@@ -117,7 +117,7 @@ func objName(o types.Object) string {
 				if st, ok := tn.Type().Underlying().(*types.Struct); ok {
 					for i := 0; i < st.NumFields(); i++ {
 						if st.Field(i) == v {
-							return fmt.Sprintf("%s.%s.%s", pkg, tn.Name(), v.Name())
+							return fmt.Sprintf("%s.%s.%s", pkg, core.TypeRefName(tn), core.FieldName(v))
 						}
 					}
 				}
